@@ -233,16 +233,22 @@ Section AddRels.
     NoDup (map (fun kv => from_name (snd kv)) l) /\
     forall kv, In kv l -> rel_fits ty (snd kv) /\ exists v, res_get src (from_name (snd kv)) = Ok v.
 
+  (** a relationship value of the declared cardinality *)
+  Definition rel_typed (x : rel) (v : value) : Prop :=
+    if to_one x then exists sv, v = VStr sv else exists n lv, v = VStrs n lv.
+
   Lemma add_rels_keeps : forall l s,
     wf_res_type (s_type s) -> pending_rels_ok (s_type s) l ->
     exists s', add_rels src s l = Ok s' /\ wf_res_type (s_type s') /\ s_id s' = s_id s /\
       tattrs (s_type s') = tattrs (s_type s) /\
       (forall f, is_field (s_type s) f -> ~ In f (map (fun kv => from_name (snd kv)) l) ->
-         is_field (s_type s') f /\ soft_get s' f = soft_get s f).
+         is_field (s_type s') f /\ soft_get s' f = soft_get s f) /\
+      (forall kv v, In kv l -> res_get src (from_name (snd kv)) = Ok v -> rel_typed (snd kv) v ->
+         soft_get s' (from_name (snd kv)) = v).
   Proof.
     induction l as [|[k x] l IH]; intros s Hw [Hnd Hall].
     - exists s. split; [reflexivity|]. split; [exact Hw|]. split; [reflexivity|]. split; [reflexivity|].
-      intros f Hf _. split; [exact Hf|reflexivity].
+      split; [intros f Hf _; split; [exact Hf|reflexivity]|intros kv v []].
     - cbn [map snd] in Hnd. apply NoDup_cons_iff in Hnd. destruct Hnd as [Hni Hnd].
       destruct (Hall (k, x) (or_introl eq_refl)) as [Hfit [v Hv]]. cbn [snd] in *.
       destruct (soft_add_rel_spec s x Hw Hfit) as [Hw1 [Hl1 [Hid1 [Hat1 [Hkeep1 [Hdefs1 Hfields1]]]]]].
@@ -253,45 +259,60 @@ Section AddRels.
       (* whichever branch is taken, the state after this relationship *)
       assert (Hnext : exists s2, (forall rest, add_rels src s ((k, x) :: rest) = add_rels src s2 rest) /\
                  s_type s2 = s_type s1 /\ s_id s2 = s_id s1 /\
-                 forall f, is_field (s_type s1) f -> f <> from_name x -> soft_get s2 f = soft_get s1 f).
-      { assert (Hset : forall v0, set_ok (s_type s1) (from_name x) v0 ->
-                  exists s2, s2 = soft_set s1 (from_name x) v0 /\ s_type s2 = s_type s1 /\ s_id s2 = s_id s1 /\
-                    forall f, is_field (s_type s1) f -> f <> from_name x -> soft_get s2 f = soft_get s1 f).
-        { intros v0 Hok. eexists. split; [reflexivity|]. split; [apply soft_set_type|]. split.
-          - destruct (soft_set_data s1 (from_name x) v0 Hw1 Hnid Hok) as [_ H]. exact H.
-          - intros f Hf Hn. apply soft_get_set_other; assumption. }
-        assert (Hsame : exists s2, s2 = s1 /\ s_type s2 = s_type s1 /\ s_id s2 = s_id s1 /\
-                    forall f, is_field (s_type s1) f -> f <> from_name x -> soft_get s2 f = soft_get s1 f).
-        { exists s1. repeat split; reflexivity. }
+                 (forall f, is_field (s_type s1) f -> f <> from_name x -> soft_get s2 f = soft_get s1 f) /\
+                 (rel_typed x v -> soft_get s2 (from_name x) = v)).
+      { assert (Hset : forall v0, v0 = v -> set_ok (s_type s1) (from_name x) v0 -> v0 <> VNil ->
+                  (forall rest, add_rels src s ((k, x) :: rest) = add_rels src (soft_set s1 (from_name x) v0) rest) ->
+                  exists s2, (forall rest, add_rels src s ((k, x) :: rest) = add_rels src s2 rest) /\
+                    s_type s2 = s_type s1 /\ s_id s2 = s_id s1 /\
+                    (forall f, is_field (s_type s1) f -> f <> from_name x -> soft_get s2 f = soft_get s1 f) /\
+                    (rel_typed x v -> soft_get s2 (from_name x) = v)).
+        { intros v0 -> Hok Hnn Hrun. exists (soft_set s1 (from_name x) v). split; [exact Hrun|].
+          split; [apply soft_set_type|]. split.
+          - destruct (soft_set_data s1 (from_name x) v Hw1 Hnid Hok) as [_ H]. exact H.
+          - split.
+            + intros f Hf Hn. apply soft_get_set_other; assumption.
+            + intros _. rewrite (soft_get_set_same s1 (from_name x) v Hw1 Hf1 Hok).
+              unfold stored. destruct v; try reflexivity. congruence. }
+        assert (Hskip : (forall rest, add_rels src s ((k, x) :: rest) = add_rels src s1 rest) -> ~ rel_typed x v ->
+                  exists s2, (forall rest, add_rels src s ((k, x) :: rest) = add_rels src s2 rest) /\
+                    s_type s2 = s_type s1 /\ s_id s2 = s_id s1 /\
+                    (forall f, is_field (s_type s1) f -> f <> from_name x -> soft_get s2 f = soft_get s1 f) /\
+                    (rel_typed x v -> soft_get s2 (from_name x) = v)).
+        { intros Hrun Hnt. exists s1. split; [exact Hrun|]. repeat split; try reflexivity. intros H; contradiction. }
+        unfold rel_typed in *.
         destruct v as [| sv | | | | | |n lv].
-        all: try (destruct Hsame as [s2 [E [H1 [H2 H3]]]]; exists s2; split;
-                  [intros rest; cbn [add_rels]; rewrite Hv; cbn [bind]; rewrite E; reflexivity|auto]).
+        all: try (apply Hskip; [intros rest; cbn [add_rels]; rewrite Hv; reflexivity|
+                                intros H; destruct (to_one x); [destruct H as [a0 H0]|destruct H as [a0 [b0 H0]]]; discriminate]).
         - destruct (to_one x) eqn:Eo.
-          + destruct (Hset (VStr sv)) as [s2 [E [H1 [H2 H3]]]].
-            { right; right. exists x. split; [exact Hl1|left; split; [exact Eo|eauto]]. }
-            exists s2. split; [intros rest; cbn [add_rels]; rewrite Hv; cbn [bind]; rewrite Eo, E; reflexivity|auto].
-          + destruct Hsame as [s2 [E [H1 [H2 H3]]]]. exists s2. split;
-              [intros rest; cbn [add_rels]; rewrite Hv; cbn [bind]; rewrite Eo, E; reflexivity|auto].
+          + apply (Hset (VStr sv) eq_refl); [|discriminate|intros rest; cbn [add_rels]; rewrite Hv; cbn [bind]; rewrite Eo; reflexivity].
+            right; right. exists x. split; [exact Hl1|left; split; [exact Eo|eauto]].
+          + apply Hskip; [intros rest; cbn [add_rels]; rewrite Hv; cbn [bind]; rewrite Eo; reflexivity|].
+            intros [a0 [b0 H0]]. discriminate.
         - destruct (to_one x) eqn:Eo.
-          + destruct Hsame as [s2 [E [H1 [H2 H3]]]]. exists s2. split;
-              [intros rest; cbn [add_rels]; rewrite Hv; cbn [bind]; rewrite Eo, E; reflexivity|auto].
-          + destruct (Hset (VStrs n lv)) as [s2 [E [H1 [H2 H3]]]].
-            { right; right. exists x. split; [exact Hl1|right; split; [exact Eo|eauto]]. }
-            exists s2. split; [intros rest; cbn [add_rels]; rewrite Hv; cbn [bind]; rewrite Eo, E; reflexivity|auto]. }
-      destruct Hnext as [s2 [Hstep [Ht2 [Hid2 Hg2]]]]. rewrite Hstep.
-      destruct (IH s2) as [s' [Hs' [Hw' [Hid' [Hat' Hkeep]]]]].
+          + apply Hskip; [intros rest; cbn [add_rels]; rewrite Hv; cbn [bind]; rewrite Eo; reflexivity|].
+            intros [a0 H0]. discriminate.
+          + apply (Hset (VStrs n lv) eq_refl); [|discriminate|intros rest; cbn [add_rels]; rewrite Hv; cbn [bind]; rewrite Eo; reflexivity].
+            right; right. exists x. split; [exact Hl1|right; split; [exact Eo|eauto]]. }
+      destruct Hnext as [s2 [Hstep [Ht2 [Hid2 [Hg2 Hval2]]]]]. rewrite Hstep.
+      destruct (IH s2) as [s' [Hs' [Hw' [Hid' [Hat' [Hkeep Hvals]]]]]].
       + rewrite Ht2. exact Hw1.
-      + split; [exact Hnd|]. intros kv Hin. destruct (Hall kv (or_intror Hin)) as [[Ha1 [Ha2 [Ha3 Ha4]]] Hval].
-        split; [|exact Hval]. split; [exact Ha1|split; [exact Ha2|split; [exact Ha3|]]].
+      + split; [exact Hnd|]. intros kv Hin. destruct (Hall kv (or_intror Hin)) as [[Ha1 [Ha2 [Ha3 Ha4]]] Hvl].
+        split; [|exact Hvl]. split; [exact Ha1|split; [exact Ha2|split; [exact Ha3|]]].
         rewrite Ht2. destruct Ha4 as [Hl|Hn]; [left; apply Hdefs1; exact Hl|].
         right. intros Hin'. apply Hn. apply (Hfields1 (from_name (snd kv))); [|exact Hin'].
         intros E. apply Hni. rewrite <- E. apply in_map_iff. exists kv. auto.
-      + exists s'. split; [exact Hs'|]. split; [exact Hw'|]. split; [congruence|]. split; [congruence|].
-        intros f Hf Hnf.
-        assert (Hfx : f <> from_name x) by (intros ->; apply Hnf; left; reflexivity).
-        destruct (Hkeep1 f Hf) as [Hf1' Hg1].
-        destruct (Hkeep f) as [Hf' Hg]; [rewrite Ht2; exact Hf1'|intros H; apply Hnf; right; exact H|].
-        split; [exact Hf'|]. rewrite Hg, (Hg2 f Hf1' Hfx). exact Hg1.
+      + exists s'. split; [exact Hs'|]. split; [exact Hw'|]. split; [congruence|]. split; [congruence|]. split.
+        * intros f Hf Hnf.
+          assert (Hfx : f <> from_name x) by (intros ->; apply Hnf; left; reflexivity).
+          destruct (Hkeep1 f Hf) as [Hf1' Hg1].
+          destruct (Hkeep f) as [Hf' Hg]; [rewrite Ht2; exact Hf1'|intros H; apply Hnf; right; exact H|].
+          split; [exact Hf'|]. rewrite Hg, (Hg2 f Hf1' Hfx). exact Hg1.
+        * intros kv v' [E|Hin] Hv' Hty.
+          -- subst kv. cbn [snd] in *. assert (v' = v) by congruence. subst v'.
+             destruct (Hkeep (from_name x)) as [_ Hg]; [rewrite Ht2; exact Hf1|exact Hni|].
+             rewrite Hg. apply Hval2. exact Hty.
+          -- apply (Hvals kv v' Hin Hv' Hty).
   Qed.
 End AddRels.
 
@@ -305,25 +326,29 @@ Theorem sc_add_stores_values c src id :
               forall kv kr, In kv (res_attrs src) -> In kr (res_rels src) -> aname (snd kv) <> from_name (snd kr)) ->
   exists c' data,
     sc_add c src = Ok c' /\ sc_items c' = sc_items c ++ [(id, data)] /\
-    forall kv v, In kv (res_attrs src) -> res_get src (aname (snd kv)) = Ok v ->
+    (forall kv v, In kv (res_attrs src) -> res_get src (aname (snd kv)) = Ok v ->
       lookup (aname (snd kv)) (tattrs (sc_type c')) = Some (snd kv) /\
-      soft_get (item_soft c' (id, data)) (aname (snd kv)) = kept (snd kv) v.
+      soft_get (item_soft c' (id, data)) (aname (snd kv)) = kept (snd kv) v) /\
+    (forall kr v, In kr (res_rels src) -> res_get src (from_name (snd kr)) = Ok v -> rel_typed (snd kr) v ->
+      soft_get (item_soft c' (id, data)) (from_name (snd kr)) = v).
 Proof.
   intros Hw Hid Hpa Hpr. unfold sc_add. rewrite Hid. cbn [bind].
   destruct (add_attrs_values src (res_attrs src) (mkSoft (sc_type c) id []) Hw Hpa)
     as [s1 [Hs1 [Hw1 [Hid1 [Hvals [_ [_ _]]]]]]].
   rewrite Hs1. cbn [bind]. destruct (Hpr s1 Hs1) as [Hprels Hdisj].
-  destruct (add_rels_keeps src (res_rels src) s1 Hw1 Hprels) as [s2 [Hs2 [Hw2 [Hid2 [Hat2 Hkeep]]]]].
+  destruct (add_rels_keeps src (res_rels src) s1 Hw1 Hprels) as [s2 [Hs2 [Hw2 [Hid2 [Hat2 [Hkeep Hrelvals]]]]]].
   rewrite Hs2. cbn [bind]. eexists. exists (s_data s2). split; [reflexivity|]. cbn [sc_items sc_type].
   split; [rewrite Hid2, Hid1; reflexivity|].
+  assert (Hitem : mkSoft (s_type s2) id (s_data s2) = s2).
+  { destruct s2 as [t2 i2 d2]. cbn in *. rewrite Hid2, Hid1. reflexivity. }
+  split; [|intros kr v Hin Hv Hty; unfold item_soft; cbn [fst snd sc_type]; rewrite Hitem; apply (Hrelvals kr v Hin Hv Hty)].
   intros kv v Hin Hv. destruct (Hvals kv v Hin Hv) as [Hl Hg]. rewrite Hat2. split; [exact Hl|].
   assert (Hf : is_field (s_type s1) (aname (snd kv))).
   { left. apply in_map_iff. exists (aname (snd kv), snd kv). split; [reflexivity|apply lookup_In; exact Hl]. }
   destruct (Hkeep (aname (snd kv)) Hf) as [_ Hg2].
   { intros H. apply in_map_iff in H. destruct H as [kr [E Hkr]]. apply (Hdisj kv kr Hin Hkr). symmetry. exact E. }
   unfold item_soft. cbn [fst snd sc_type].
-  replace (mkSoft (s_type s2) id (s_data s2)) with s2; [rewrite Hg2; exact Hg|].
-  destruct s2 as [t2 i2 d2]. cbn in *. rewrite Hid2, Hid1. reflexivity.
+  rewrite Hitem, Hg2. exact Hg.
 Qed.
 
 (** non-vacuity: a resource with a new attribute and one the type already has *)
